@@ -45,16 +45,19 @@ def run(ctx):
     for si, n in enumerate(names, 1):
         fam = c02.SYNTH_MOLS if os.sep in n else c02.FAMILY[n]
         pool = fam + c02.OUTSIDE[:2]
-        npairs = (60 if thorough else 6)
+        npairs = (60 if thorough else 4)
         mixes = []
         for _ in range(npairs):
             a, b = rng_.choice(pool), rng_.choice(pool)
             mixes.append([a, b])
+            mixes.append([b, a])                       # component order must not matter
         mixes.append([fam[1], fam[1]])                 # self pair
         mixes.append([fam[0], fam[2], fam[3 % len(fam)]])   # a triple
         if fam is c02.GAS:
             mixes.append(['c1ccccc1', 'C1CCCCC1'])      # molecule-level prefixes see the whole input
             mixes.append(['CC', 'C=C'])
+            # a remapped group of the first component whose target occurs natively in the second, and the reverse
+            mixes += [['CO', 'CC'], ['CC', 'CO'], ['CC=C', 'CCC'], ['CCC', 'CC=C']]
         for comps in mixes:
             mix = '.'.join(comps)
             for s in comps + [mix]:
